@@ -577,13 +577,21 @@ func genLiteral(t *rapid.T) litCase {
 	switch rapid.IntRange(0, 9).Draw(t, "litKind") {
 	case 0, 1: // decimal, optional sign and underscores
 		d := genDigits(t, "0123456789", 1, 20)
-		if len(d) > 1 {
-			d = strings.TrimLeft(d, "0")
-			if d == "" {
-				d = "0"
-			}
-		}
 		why := "decimal"
+		if len(d) > 1 && d[0] == '0' {
+			// redundant leading zeros: still decimal (octal is spelled 0o..), 010 is ten
+			if rapid.Bool().Draw(t, "keepzeros") {
+				why += "+leadingzero"
+			} else {
+				d = strings.TrimLeft(d, "0")
+				if d == "" {
+					d = "0"
+				}
+			}
+		} else if rapid.IntRange(0, 7).Draw(t, "addzeros") == 0 {
+			d = strings.Repeat("0", rapid.IntRange(1, 3).Draw(t, "nz")) + d
+			why += "+leadingzero"
+		}
 		neg := rapid.Bool().Draw(t, "neg")
 		text := withUnderscores(t, d)
 		if text != d {
